@@ -602,7 +602,9 @@ properties[Profiles.CSS_LEVEL_2] = {
     'unicode-bidi': r'normal|embed|bidi-override|inherit',
     'vertical-align': r'baseline|sub|super|top|text-top|middle|bottom|text-bottom|{percentage}|{length}|inherit',
     'visibility': r'visible|hidden|collapse|inherit',
-    'voice-family': r'(({specific-voice}|{generic-voice}){w},{w})*({specific-voice}|{generic-voice})|inherit',
+    # (a generic voice - male, female, child - is an identifier as well, so it
+    # is matched as {specific-voice}: one way to match every name)
+    'voice-family': r'({specific-voice}{w},{w})*{specific-voice}|inherit',
     'volume': r'{number}|{percentage}|silent|x-soft|soft|medium|loud|x-loud|inherit',
     'white-space': r'normal|pre|nowrap|pre-wrap|pre-line|inherit',
     'widows': r'{integer}|inherit',
